@@ -24,8 +24,11 @@ GENERIC_MOD = "windpyutils.generic"
 def run(prog: Program, rep: Report):
     f = prog.func_view("sorted_combinations", GENERIC_MOD)        # private helper functions of the module inlined (sa/inline.py)
     g = prog.func_view("min_combinations_in_interval_iter_sorted", GENERIC_MOD)
-    r1_r4_expansion(prog, rep, f)
-    r5_scan(prog, rep, g, f)
+    rep.attempt(lambda: r1_r4_expansion(prog, rep, f))
+    rep.attempt(lambda: r5_scan(prog, rep, g, f))
+    from .purity import rule_history_free
+    rep.attempt(lambda: rule_history_free(prog, rep, "C17.R6", [prog.func("sorted_combinations", GENERIC_MOD),
+                                                                 prog.func("min_combinations_in_interval_iter_sorted", GENERIC_MOD)]))
 
 
 def _heap_fn(prog, f: Func, call: ast.Call) -> str:
@@ -50,6 +53,25 @@ def r1_r4_expansion(prog, rep: Report, f: Func):
     elements, key = f.params[0], f.params[1]
     yk = f.params[2] if len(f.params) > 2 else None
     flow = Flow(f.node)
+    # ---- the indices of a combination are positions in the caller's sequence: the parameter is not re-ordered
+    from ..util import iter_stores
+    rebinds = [(t, v, st) for t, v, st in iter_stores(f.node) if isinstance(t, ast.Name) and t.id == elements and v is not None]
+    for t, v, st in rebinds:
+        fn = src(v.func) if isinstance(v, ast.Call) else None
+        if fn in ("list", "tuple") and len(v.args) == 1 and src(v.args[0]) == elements and not v.keywords:
+            continue                                      # order-preserving materialisation of an iterable
+        reorders = fn in ("sorted", "reversed", "set", "frozenset", "random.sample", "sample") or \
+            (isinstance(v, ast.Subscript) and isinstance(v.slice, ast.Slice) and v.slice.step is not None and src(v.slice.step) != "1") or \
+            (fn in ("list", "tuple") and v.args and isinstance(v.args[0], ast.Call) and src(v.args[0].func) in ("sorted", "reversed", "set", "frozenset"))
+        if reorders:
+            rep.viol("C17.R1", f, "elements-as-given", f"`{src(st)[:90]}` re-orders (or de-duplicates) the element sequence before the "
+                     "indices are drawn: the yielded tuples are no longer ordered by the caller's indices",
+                     scenario="sorted_combinations([3, 1, 2], key=sum) yields (1, 3) and (1, 2, 3) instead of (3, 1) and (3, 1, 2)",
+                     line=st.lineno)
+        else:
+            rep.unrec("C17.R1", f, "elements-as-given", f"the element sequence is re-bound by `{src(st)[:90]}`: cannot tell whether the "
+                      "order is kept", line=st.lineno)
+        return
     # ---- the queue and its seed
     q = None
     seed = None
@@ -328,6 +350,28 @@ def r5_scan(prog, rep: Report, g: Func, f: Func):
     if res is None:
         rep.unrec("C17.R5", g, "guards", "result accumulator not found")
         return
+    # a score sum may be 0 (zero scores are legal): a local that holds "None or a score" must not be read as a truth value
+    truth = []
+    for n in ast.walk(lp):
+        if isinstance(n, ast.BoolOp):
+            truth += list(n.values)
+        elif isinstance(n, ast.UnaryOp) and isinstance(n.op, ast.Not):
+            truth.append(n.operand)
+        elif isinstance(n, (ast.If, ast.While, ast.IfExp)):
+            truth.append(n.test)
+    for t in truth:
+        if not isinstance(t, ast.Name):
+            continue
+        defs = list(flow.defs_of(t))
+        vals = [d.value for d in defs if isinstance(getattr(d, "value", None), ast.expr)]
+        has_none = any(isinstance(v, ast.Constant) and v.value is None for v in vals)
+        has_score = any(src(v) in (s_v, f"{res}[-1][1]", f"{res}[0][1]") for v in vals)
+        if has_none and has_score:
+            rep.viol("C17.R5", g, "guards", f"`{t.id}` holds None or a score sum and is read as a truth value (line {t.lineno}): a minimal "
+                     "sum of 0 counts as 'nothing found yet', so the stop test past the minimum never applies",
+                     scenario="scores [0, 2, 3], interval [0, 10): the combinations with sum 2 (and every larger sum below 10) are "
+                              "returned next to the one with sum 0", line=t.lineno)
+            return
     # the scan is the only producer of the result: every return hands back the accumulator, after the loop
     def _own(r):
         p_ = getattr(r, "_parent", None)
